@@ -51,31 +51,56 @@ func (p *Processor) ID() string {
 	return "HMAC processor"
 }
 
-// OnColumn return data itself if hash matched, otherwise column data hash will be returned
+// OnColumn is the FIRST of the two subscriptions of the processor (before the decrypting subscribers):
+// if the column holds <hash><crypto envelope> it keeps the hash and the raw column and passes the envelope on.
+// Whatever an earlier column left behind is dropped first, so columns never influence each other.
 func (p *Processor) OnColumn(ctx context.Context, data []byte) (context.Context, []byte, error) {
-	_, err := p.Process(data, &base.DataProcessorContext{Context: ctx})
-	if err != nil {
-		logger := logging.GetLoggerFromContext(ctx)
-		logger.WithError(err).Debugln("Failed on HMAC processing")
-		p.hashData = nil
-		return base.MarkNotDecryptedContext(ctx), p.rawData, nil
-	}
-
-	p.matchedHash = ExtractHash(data)
-	if p.matchedHash == nil {
-		p.hashData = nil
+	p.hashData, p.matchedHash, p.rawData = nil, nil, nil
+	matchedHash := ExtractHash(data)
+	if matchedHash == nil {
 		return ctx, data, nil
 	}
-	if !p.envelopeMatcher.Match(data[p.matchedHash.Length():]) {
-		p.matchedHash = nil
+	if !p.envelopeMatcher.Match(data[matchedHash.Length():]) {
 		return ctx, data, nil
 	}
 	p.rawData = make([]byte, len(data))
 	// save initial data
 	copy(p.rawData, data)
 
+	p.matchedHash = ExtractHash(p.rawData)
 	p.hashData = p.rawData[:p.matchedHash.Length()]
 	return ctx, data[p.matchedHash.Length():], nil
+}
+
+// Verifier returns the SECOND subscription of the processor (after the decrypting subscribers): it checks the
+// hash kept by OnColumn against the data produced by the subscribers in between. On mismatch the column is
+// returned as it came from the database and marked as not decrypted. It never looks for a hash in its input.
+func (p *Processor) Verifier() base.DecryptionSubscriber {
+	return hashVerifier{p}
+}
+
+type hashVerifier struct{ processor *Processor }
+
+// ID return hardcoded ID of the verifying stage
+func (v hashVerifier) ID() string {
+	return "HMAC processor (verify)"
+}
+
+// OnColumn verifies data against the hash stripped by Processor.OnColumn from the same column
+func (v hashVerifier) OnColumn(ctx context.Context, data []byte) (context.Context, []byte, error) {
+	p := v.processor
+	if p.hashData == nil {
+		return ctx, data, nil
+	}
+	_, err := p.Process(data, &base.DataProcessorContext{Context: ctx})
+	rawData := p.rawData
+	p.hashData, p.matchedHash, p.rawData = nil, nil, nil
+	if err != nil {
+		logger := logging.GetLoggerFromContext(ctx)
+		logger.WithError(err).Debugln("Failed on HMAC processing")
+		return base.MarkNotDecryptedContext(ctx), rawData, nil
+	}
+	return ctx, data, nil
 }
 
 // Process HMAC DataProcessor implementation
